@@ -348,7 +348,7 @@ def check_sig(sig, acc=None):
 
 def plan(tier, seed):
     n = 16 if tier == "quick" else 48
-    return [{"kind": "sig", "shard": i, "seed": seed, "examples": 60 if tier == "quick" else 500} for i in range(n)]
+    return [{"kind": "sig", "shard": i, "seed": seed, "examples": 60 if tier == "quick" else 1500} for i in range(n)]
 
 
 def work(sh):
